@@ -929,6 +929,20 @@ namespace
     }
 }
 
+#ifdef VF_FUZZ
+extern "C" int
+LLVMFuzzerTestOneInput(const std::uint8_t* data, std::size_t size)
+{
+    return fuzz_one("h_hist", grid_name, "C09", data, size,
+                    [](Runner& R, Rng& rng, const std::string& prop)
+                    {
+                        if (prop == "C16" || (prop == "all" && rng.chance(0.5)))
+                            c16_case(R, rng, 7);
+                        else
+                            c09_case(R, rng, 7, 8);
+                    });
+}
+#else
 int
 main(int argc, char** argv)
 {
@@ -974,3 +988,4 @@ main(int argc, char** argv)
                              c16_case(R_, rng, max_side);
                      });
 }
+#endif
